@@ -182,48 +182,99 @@ def rule_sections(ctx, res):
     res.require_min('R-C03-sections', 10)
 
 
-def rule_linelen(ctx, res, sizes):
+def _part(res, rule, sec, fn):
+    """run one per-section part; an extraction failure is an UNDECIDED of
+    that section only"""
+    try:
+        fn()
+    except AnalysisError as e:
+        res.undecided(rule, 'section ' + sec, 'analysis', str(e))
+
+
+def rule_roundtrip(ctx, res, sizes):
+    """whole-function evaluation of every section codec on symbolic memory:
+    from_lines(to_lines(memory)) must be that memory, for all contents.
+    -> set of sections decided this way"""
+    from . import cxcodecs as XC
+    decided = set()
+    for sec in ('gfx', 'gff', 'map', 'sfx', 'music'):
+        try:
+            se = XC.evaluate(ctx, sec, sizes[sec])
+        except AnalysisError:
+            continue
+        rt = se.roundtrip
+        if isinstance(rt, AnalysisError):
+            res.info('R-C03-layout', se.cls.qual,
+                     '{}: whole-function evaluation could not follow the '
+                     'codec'.format(sec), str(rt)[:160])
+            continue
+        skip = set(ref.MUSIC_UNREPRESENTABLE) if sec == 'music' else set()
+        d = se.mem_diff(rt, skip)
+        f = ctx.model.lookup_method(se.cls, 'from_lines')
+        res.check(d is None, 'R-C03-layout', se.cls.qual,
+                  '{}: from_lines(to_lines(memory)) == memory for every '
+                  'content of the {} bytes'.format(sec, se.size),
+                  '{} lines evaluated'.format(
+                      len(se.writer) if isinstance(se.writer, list) else 0),
+                  '{} section does not survive write-then-read: {}'.format(
+                      sec, d), f.loc if f else '')
+        decided.add(sec)
+    return decided
+
+
+def rule_linelen(ctx, res, sizes, skip=()):
     ev = ctx.consts
-    gw = codecs.gfx_writer_layout(ctx)
-    gr = codecs.gfx_reader_layout(ctx)
-    hl = ev.class_const(ctx.model.cls('pico8.gfx.gfx:Gfx'),
-                        'HEX_LINE_LENGTH_BYTES')
-    res.check(gr['filter'] == 2 * hl + 1 and sizes['gfx'] % hl == 0,
-              'R-C03-linelen', gr['func'].qual,
-              'gfx/label: lines of 2*{}+1 characters'.format(hl),
-              'filter {}'.format(gr['filter']),
-              'gfx to_lines produces {}-character lines, from_lines keeps '
-              'only lines of {}'.format(2 * hl + 1, gr['filter']),
-              gr['func'].loc)
-    sw = codecs.sfx_writer_layout(ctx)
-    sr = codecs.sfx_reader_layout(ctx)
-    n_notes = sw['notes'][1] - sw['notes'][0]
-    length = len(sw['header']) + n_notes * len(sw['note']) + 1
-    res.check(length == sr['filter'], 'R-C03-linelen', sr['func'].qual,
-              'sfx: lines of {} characters'.format(length),
-              'filter {}'.format(sr['filter']),
-              'sfx to_lines produces {}-character lines, from_lines keeps '
-              'only lines of {}'.format(length, sr['filter']),
-              sr['func'].loc)
-    rng = sr['irange']
-    res.check(rng[0] == len(sw['header']) and rng[2] == len(sw['note']) and
-              (rng[1] - rng[0]) // rng[2] == n_notes, 'R-C03-linelen',
-              sr['func'].qual,
-              'sfx reader walks the notes the writer emits',
-              'from digit {} in steps of {}'.format(rng[0], rng[2]),
-              'reader range {} does not match {} header digits + {} notes '
-              'of {} digits'.format(rng, len(sw['header']), n_notes,
-                                    len(sw['note'])), sr['func'].loc)
-    mw = codecs.music_writer_layout(ctx)
-    mr = codecs.music_reader_layout(ctx)
-    spaces = max(([x for x in l if x == ('lit', b' ')]
-                  for (_a, l) in mw['lines']),
-                 key=lambda v: abs(len(v) - 1))
-    res.check(len(spaces) == 1 and mr['sep'] == b' ' and mr['filter'],
-              'R-C03-linelen', mr['func'].qual,
-              'music: exactly one space separates flags and channels', '',
-              'music line has {} spaces / reader splits on {!r}'.format(
-                  len(spaces), mr['sep']), mr['func'].loc)
+
+    def gfx():
+        gw = codecs.gfx_writer_layout(ctx)
+        gr = codecs.gfx_reader_layout(ctx)
+        hl = ev.class_const(ctx.model.cls('pico8.gfx.gfx:Gfx'),
+                            'HEX_LINE_LENGTH_BYTES')
+        res.check(gr['filter'] == 2 * hl + 1 and sizes['gfx'] % hl == 0,
+                  'R-C03-linelen', gr['func'].qual,
+                  'gfx/label: lines of 2*{}+1 characters'.format(hl),
+                  'filter {}'.format(gr['filter']),
+                  'gfx to_lines produces {}-character lines, from_lines '
+                  'keeps only lines of {}'.format(2 * hl + 1, gr['filter']),
+                  gr['func'].loc)
+
+    def sfx():
+        sw = codecs.sfx_writer_layout(ctx)
+        sr = codecs.sfx_reader_layout(ctx)
+        n_notes = sw['notes'][1] - sw['notes'][0]
+        length = len(sw['header']) + n_notes * len(sw['note']) + 1
+        res.check(length == sr['filter'], 'R-C03-linelen', sr['func'].qual,
+                  'sfx: lines of {} characters'.format(length),
+                  'filter {}'.format(sr['filter']),
+                  'sfx to_lines produces {}-character lines, from_lines '
+                  'keeps only lines of {}'.format(length, sr['filter']),
+                  sr['func'].loc)
+        rng = sr['irange']
+        res.check(rng[0] == len(sw['header']) and rng[2] == len(sw['note'])
+                  and (rng[1] - rng[0]) // rng[2] == n_notes,
+                  'R-C03-linelen', sr['func'].qual,
+                  'sfx reader walks the notes the writer emits',
+                  'from digit {} in steps of {}'.format(rng[0], rng[2]),
+                  'reader range {} does not match {} header digits + {} '
+                  'notes of {} digits'.format(rng, len(sw['header']), n_notes,
+                                              len(sw['note'])),
+                  sr['func'].loc)
+
+    def music():
+        mw = codecs.music_writer_layout(ctx)
+        mr = codecs.music_reader_layout(ctx)
+        spaces = max(([x for x in l if x == ('lit', b' ')]
+                      for (_a, l) in mw['lines']),
+                     key=lambda v: abs(len(v) - 1))
+        res.check(len(spaces) == 1 and mr['sep'] == b' ' and mr['filter'],
+                  'R-C03-linelen', mr['func'].qual,
+                  'music: exactly one space separates flags and channels',
+                  '', 'music line has {} spaces / reader splits on '
+                  '{!r}'.format(len(spaces), mr['sep']), mr['func'].loc)
+
+    for sec, fn in (('gfx', gfx), ('sfx', sfx), ('music', music)):
+        if sec not in skip:
+            _part(res, 'R-C03-linelen', sec, fn)
     for name, clsq in (('gff', 'pico8.gff.gff:Gff'),
                        ('map', 'pico8.map.map:Map')):
         hl2 = ev.class_const(ctx.model.cls(clsq), 'HEX_LINE_LENGTH_BYTES')
@@ -234,128 +285,132 @@ def rule_linelen(ctx, res, sizes):
                   'length'.format(name))
 
 
-def rule_layout(ctx, res):
-    # gfx
-    gw = codecs.gfx_writer_layout(ctx)
-    gr = codecs.gfx_reader_layout(ctx)
-    # writer: digit 2k <- bits digit0_bits (as a nibble), digit 2k+1 <- ...
-    # reader: after swapping pairs and fromhex: byte hi nibble <- digit 2k+1,
-    # lo nibble <- digit 2k
-    w0, w1 = gw['digit0_bits'], gw['digit1_bits']
-    reader_lo_digit, reader_hi_digit = 0, 1      # which text digit feeds
-    if gr['swap'] is None:
-        reader_lo_digit, reader_hi_digit = 1, 0
-    ok = gr['fromhex'] and (
-        (w0 == [0, 1, 2, 3] and w1 == [4, 5, 6, 7] and
-         (reader_lo_digit, reader_hi_digit) == (0, 1)) or
-        (w0 == [4, 5, 6, 7] and w1 == [0, 1, 2, 3] and
-         (reader_lo_digit, reader_hi_digit) == (1, 0)))
-    res.check(ok, 'R-C03-layout', gr['func'].qual,
-              'gfx: reader nibble map is the inverse of the writer\'s',
-              'writer digits carry bits {} / {}; reader swap {}'.format(
-                  w0, w1, gr['swap']),
-              'gfx writer puts memory bits {} in the first and {} in the '
-              'second digit, the reader (swap={}) reads them the other way '
-              'round'.format(w0, w1, gr['swap']), gr['func'].loc)
-    # sfx
-    sw = codecs.sfx_writer_layout(ctx)
-    sr = codecs.sfx_reader_layout(ctx)
-    # writer: digit d bit b <- RAM (off, bit); reader: RAM <- digit
-    w_map = {}
-    for d, cells in enumerate(sw['note']):
-        for b, c in enumerate(cells):
-            if c and c[0] == 'self._data':
-                w_map[(c[1], c[2])] = (d, b)
-    nb = Aff({sr['id_var']: 68, sr['note_var']: 2}, 0)
-    r_map = {}
-    for (arr, idx, bv, node) in sr['note_stores']:
-        d = idx - nb
-        if not d.is_const():
-            continue
-        for bit in range(8):
-            a = LY.cell_single(bv.cell(bit))
-            if a is None:
-                continue
-            p = codecs.digit_atom_pos(a, sr['note_var'], sr['irange'][0],
-                                      sr['irange'][2])
-            if p and p[0] == 'note':
-                r_map[(d.const, bit)] = (p[1], p[2])
-    res.check(w_map == r_map and len(w_map) == 16, 'R-C03-layout',
-              sr['func'].qual, 'sfx notes: reader map is the inverse of the '
-              'writer map, all 16 bits carried', '',
-              'sfx note bits travel differently: writer {} reader {}'.format(
-                  sorted((k, v) for k, v in w_map.items()
-                         if r_map.get(k) != v)[:4],
-                  sorted((k, v) for k, v in r_map.items()
-                         if w_map.get(k) != v)[:4]), sr['func'].loc)
-    hw = {}
-    for d, cells in enumerate(sw['header']):
-        for b, c in enumerate(cells):
-            if c and c[0] == 'self._data':
-                hw[(c[1], c[2])] = (d, b)
-    hr = {}
-    idb = Aff({sr['id_var']: 68}, 0)
-    for (arr, idx, bv, node) in sr['hdr_stores']:
-        d = idx - idb
-        if not d.is_const():
-            continue
-        for bit in range(8):
-            a = LY.cell_single(bv.cell(bit))
-            p = codecs.digit_atom_pos(a) if a else None
-            if p and p[0] == 'abs':
-                hr[(d.const, bit)] = (p[1], p[2])
-    res.check(hw == hr and len(hw) == 32, 'R-C03-layout', sr['func'].qual,
-              'sfx header: 4 bytes carried digit for digit', '',
-              'sfx header bytes travel differently', sr['func'].loc)
-    # music
-    mw = codecs.music_writer_layout(ctx)
-    mr = codecs.music_reader_layout(ctx)
-    # writer digits after the space are channel digits 0..7; flag digits 0,1
-    def writer_map(line):
-        wm = {}
-        pos = 0
-        side = 'F'
-        for item in line:
-            if isinstance(item, tuple) and item[0] == 'lit':
-                if item[1] == b' ':
-                    side, pos = 'C', 0
-                continue
-            for b, c in enumerate(item):
+def rule_layout(ctx, res, skip=()):
+    def gfx():
+        gw = codecs.gfx_writer_layout(ctx)
+        gr = codecs.gfx_reader_layout(ctx)
+        # writer: digit 2k <- bits digit0_bits (as a nibble), digit 2k+1 <- ...
+        # reader: after swapping pairs and fromhex: byte hi nibble <- digit 2k+1,
+        # lo nibble <- digit 2k
+        w0, w1 = gw['digit0_bits'], gw['digit1_bits']
+        reader_lo_digit, reader_hi_digit = 0, 1      # which text digit feeds
+        if gr['swap'] is None:
+            reader_lo_digit, reader_hi_digit = 1, 0
+        ok = gr['fromhex'] and (
+            (w0 == [0, 1, 2, 3] and w1 == [4, 5, 6, 7] and
+             (reader_lo_digit, reader_hi_digit) == (0, 1)) or
+            (w0 == [4, 5, 6, 7] and w1 == [0, 1, 2, 3] and
+             (reader_lo_digit, reader_hi_digit) == (1, 0)))
+        res.check(ok, 'R-C03-layout', gr['func'].qual,
+                  'gfx: reader nibble map is the inverse of the writer\'s',
+                  'writer digits carry bits {} / {}; reader swap {}'.format(
+                      w0, w1, gr['swap']),
+                  'gfx writer puts memory bits {} in the first and {} in the '
+                  'second digit, the reader (swap={}) reads them the other way '
+                  'round'.format(w0, w1, gr['swap']), gr['func'].loc)
+    def sfx():
+        sw = codecs.sfx_writer_layout(ctx)
+        sr = codecs.sfx_reader_layout(ctx)
+        # writer: digit d bit b <- RAM (off, bit); reader: RAM <- digit
+        w_map = {}
+        for d, cells in enumerate(sw['note']):
+            for b, c in enumerate(cells):
                 if c and c[0] == 'self._data':
-                    wm[(c[1], c[2])] = (side, pos, b)
-            pos += 1
-        return wm
-    # every path through the writer must give the same map; report the one
-    # that carries the fewest bits
-    maps = [writer_map(l) for (_a, l) in mw['lines']]
-    wm = min(maps, key=len)
-    rm = {}
-    for k, bv in enumerate(mr['bytes']):
-        for bit in range(8):
-            c = bv.cell(bit)
-            if c is TOP:
+                    w_map[(c[1], c[2])] = (d, b)
+        nb = Aff({sr['id_var']: 68, sr['note_var']: 2}, 0)
+        r_map = {}
+        for (arr, idx, bv, node) in sr['note_stores']:
+            d = idx - nb
+            if not d.is_const():
                 continue
-            for v in c.vars:
-                src, b = v
-                if src[0] == 'digit':
-                    p = Aff(dict(src[2][0]), src[2][1]).const
-                    # only the flag digit counts for bit 7 (channel digits'
-                    # top bit is written as 0)
-                    if bit == 7 and src[1] == 'C':
-                        continue
-                    rm[(k, bit)] = (src[1], p, b)
-    carried = set(wm)
-    missing = {(k, b) for k in range(4) for b in range(8)} - carried
-    res.check(wm == rm, 'R-C03-layout', mr['func'].qual,
-              'music: reader map is the inverse of the writer map', '',
-              'music bits travel differently: {}'.format(sorted(
-                  (k, wm.get(k), rm.get(k)) for k in set(wm) | set(rm)
-                  if wm.get(k) != rm.get(k))[:4]), mr['func'].loc)
-    res.check(missing == set(ref.MUSIC_UNREPRESENTABLE), 'R-C03-layout',
-              mw['func'].qual,
-              'every music bit is carried except bit 7 of channel 3', '',
-              'bits not carried by the .p8 music line: {}'.format(
-                  sorted(missing)), mw['func'].loc)
+            for bit in range(8):
+                a = LY.cell_single(bv.cell(bit))
+                if a is None:
+                    continue
+                p = codecs.digit_atom_pos(a, sr['note_var'], sr['irange'][0],
+                                          sr['irange'][2])
+                if p and p[0] == 'note':
+                    r_map[(d.const, bit)] = (p[1], p[2])
+        res.check(w_map == r_map and len(w_map) == 16, 'R-C03-layout',
+                  sr['func'].qual, 'sfx notes: reader map is the inverse of the '
+                  'writer map, all 16 bits carried', '',
+                  'sfx note bits travel differently: writer {} reader {}'.format(
+                      sorted((k, v) for k, v in w_map.items()
+                             if r_map.get(k) != v)[:4],
+                      sorted((k, v) for k, v in r_map.items()
+                             if w_map.get(k) != v)[:4]), sr['func'].loc)
+        hw = {}
+        for d, cells in enumerate(sw['header']):
+            for b, c in enumerate(cells):
+                if c and c[0] == 'self._data':
+                    hw[(c[1], c[2])] = (d, b)
+        hr = {}
+        idb = Aff({sr['id_var']: 68}, 0)
+        for (arr, idx, bv, node) in sr['hdr_stores']:
+            d = idx - idb
+            if not d.is_const():
+                continue
+            for bit in range(8):
+                a = LY.cell_single(bv.cell(bit))
+                p = codecs.digit_atom_pos(a) if a else None
+                if p and p[0] == 'abs':
+                    hr[(d.const, bit)] = (p[1], p[2])
+        res.check(hw == hr and len(hw) == 32, 'R-C03-layout', sr['func'].qual,
+                  'sfx header: 4 bytes carried digit for digit', '',
+                  'sfx header bytes travel differently', sr['func'].loc)
+    def music():
+        mw = codecs.music_writer_layout(ctx)
+        mr = codecs.music_reader_layout(ctx)
+        # writer digits after the space are channel digits 0..7; flag digits 0,1
+        def writer_map(line):
+            wm = {}
+            pos = 0
+            side = 'F'
+            for item in line:
+                if isinstance(item, tuple) and item[0] == 'lit':
+                    if item[1] == b' ':
+                        side, pos = 'C', 0
+                    continue
+                for b, c in enumerate(item):
+                    if c and c[0] == 'self._data':
+                        wm[(c[1], c[2])] = (side, pos, b)
+                pos += 1
+            return wm
+        # every path through the writer must give the same map; report the one
+        # that carries the fewest bits
+        maps = [writer_map(l) for (_a, l) in mw['lines']]
+        wm = min(maps, key=len)
+        rm = {}
+        for k, bv in enumerate(mr['bytes']):
+            for bit in range(8):
+                c = bv.cell(bit)
+                if c is TOP:
+                    continue
+                for v in c.vars:
+                    src, b = v
+                    if src[0] == 'digit':
+                        p = Aff(dict(src[2][0]), src[2][1]).const
+                        # only the flag digit counts for bit 7 (channel digits'
+                        # top bit is written as 0)
+                        if bit == 7 and src[1] == 'C':
+                            continue
+                        rm[(k, bit)] = (src[1], p, b)
+        carried = set(wm)
+        missing = {(k, b) for k in range(4) for b in range(8)} - carried
+        res.check(wm == rm, 'R-C03-layout', mr['func'].qual,
+                  'music: reader map is the inverse of the writer map', '',
+                  'music bits travel differently: {}'.format(sorted(
+                      (k, wm.get(k), rm.get(k)) for k in set(wm) | set(rm)
+                      if wm.get(k) != rm.get(k))[:4]), mr['func'].loc)
+        res.check(missing == set(ref.MUSIC_UNREPRESENTABLE), 'R-C03-layout',
+                  mw['func'].qual,
+                  'every music bit is carried except bit 7 of channel 3', '',
+                  'bits not carried by the .p8 music line: {}'.format(
+                      sorted(missing)), mw['func'].loc)
+
+    for sec, fn in (('gfx', gfx), ('sfx', sfx), ('music', music)):
+        if sec not in skip:
+            _part(res, 'R-C03-layout', sec, fn)
 
 
 def _resolve_local(fnode, e, depth=0):
@@ -577,8 +632,13 @@ def rule_text(ctx, res):
 
 def run(ctx, res):
     sizes = _region_sizes(ctx)
-    for rule, args in ((rule_sections, ()), (rule_linelen, (sizes,)),
-                       (rule_layout, ()), (rule_text, ())):
+    decided = set()
+    try:
+        decided = rule_roundtrip(ctx, res, sizes)
+    except AnalysisError as e:
+        res.info('R-C03-layout', 'rule_roundtrip', 'analysis', str(e))
+    for rule, args in ((rule_sections, ()), (rule_linelen, (sizes, decided)),
+                       (rule_layout, (decided,)), (rule_text, ())):
         try:
             rule(ctx, res, *args)
         except AnalysisError as e:
